@@ -21,7 +21,8 @@ import common
 import proofs
 from common import hx
 
-FILES = ["Model_mindex.v", "Proofs_mindex.v", "Proofs_mindex_mass.v", "Entry_mindex.v", "Extract_mindex.v"]
+FILES = ["Model_mindex.v", "Proofs_mindex.v", "Proofs_mindex_mass.v", "Proofs_mindex_single.v", "Proofs_mindex_batched.v",
+         "Proofs_mindex_single_tm.v", "Proofs_mindex_single_o.v", "Proofs_mindex_single_thm.v", "Entry_mindex.v", "Extract_mindex.v"]
 PROP = "Properties/C14.v"
 FINDINGS = ["Findings/C14_quat.v", "Findings/C14_mass.v"]
 GROUP = "mindex"
